@@ -163,12 +163,129 @@ class World:
 
 
 # ---------------------------------------------------------------------------------------------
+# probe widgets: leaves / a decoration whose rendering is NOT cached (documented `no_cache = ["render"]`, or a
+# canvas with `cacheable = False` as urwid.Terminal's), next to cached twins of the same shape.  Multi-row,
+# optionally selectable, never a cursor.  Content depends on value, row index and focus.
+
+
+class _UncacheableCanvas(urwid.TextCanvas):
+    cacheable = False
+
+
+class Probe(urwid.Widget):
+    """flow leaf of `nrows` rows (kind "flow") or box leaf (kind "box"); public mutator set_value()"""
+
+    _sizing = frozenset([urwid.FLOW])
+    canvas_cls = urwid.TextCanvas
+
+    def __init__(self, tag, value, nrows, selectable, box=False):
+        super().__init__()
+        self.tag, self.value, self.nrows, self._sel, self.box = tag, value, nrows, bool(selectable), box
+
+    def sizing(self):
+        return frozenset([urwid.BOX if self.box else urwid.FLOW])
+
+    def selectable(self):
+        return self._sel
+
+    def rows(self, size, focus=False):
+        return self.nrows
+
+    def _draw(self, size, focus):
+        maxcol = size[0]
+        nrows = size[1] if len(size) > 1 else self.nrows
+        mark = "*" if focus else "."
+        rows = [f"{self.tag}{self.value}{mark}{i}".encode("ascii")[:maxcol].ljust(maxcol) for i in range(nrows)]
+        return self.canvas_cls(rows, maxcol=maxcol)
+
+    def render(self, size, focus=False):
+        return self._draw(size, focus)
+
+    def keypress(self, size, key):
+        return key
+
+    def set_value(self, value, nrows=None):
+        """public mutator"""
+        self.value = value
+        if nrows is not None and not self.box:
+            self.nrows = nrows
+        self._invalidate()
+
+
+class NCProbe(Probe):
+    no_cache = ["render"]
+
+    def render(self, size, focus=False):
+        return self._draw(size, focus)
+
+
+class UCProbe(Probe):
+    """render is wrapped by the cache as usual, but the canvas refuses to be cached"""
+
+    canvas_cls = _UncacheableCanvas
+
+
+class NCDeco(urwid.WidgetDecoration):
+    """transparent decoration (not selectable) whose own rendering is not cached"""
+
+    no_cache = ["render", "rows"]
+
+    def sizing(self):
+        return self._original_widget.sizing()
+
+    def rows(self, size, focus=False):
+        return self._original_widget.rows(size, focus)
+
+    def pack(self, size=(), focus=False):
+        return self._original_widget.pack(size, focus)
+
+    def render(self, size, focus=False):
+        return urwid.CompositeCanvas(self._original_widget.render(size, focus))
+
+
+PROBES = {"cached": Probe, "no_cache": NCProbe, "uncacheable": UCProbe}
+
+
+def build_spec(spec, enc, rec):
+    """vlib.gen_widgets.build plus the probe classes (which may wrap / be listed with gen_widgets specs)"""
+    c = spec["cls"]
+    if c == "Probe":
+        return PROBES[spec["cache"]](spec["tag"], spec["value"], spec["rows"], spec["sel"], box=spec["kind"] == "box")
+    if c == "NCDeco":
+        return NCDeco(build_spec(spec["w"], enc, rec))
+    if c == "LB":
+        items = [build_spec(x, enc, rec) for x in spec["items"]]
+        lb = urwid.ListBox(getattr(urwid, spec["walker"])(items))
+        if items:
+            lb.set_focus(spec["focus"] % len(items))
+        return lb
+    if c == "FillerP":
+        return urwid.Filler(build_spec(spec["w"], enc, rec), valign="top", height="pack")
+    if c == "BoxIn":
+        # a box widget (spec["w"]) under an ordinary cached box parent
+        inner = build_spec(spec["w"], enc, rec)
+        k = spec["kind"]
+        if k == "frame":
+            return urwid.Frame(inner, header=urwid.Text("head"), footer=urwid.Text("foot") if spec.get("footer") else None)
+        if k == "linebox":
+            return urwid.LineBox(inner)
+        if k == "attrmap":
+            return urwid.AttrMap(inner, "a1", "hl")
+        if k == "pile":
+            return urwid.Pile([("pack", urwid.Text("above")), inner])
+        if k == "columns":
+            return urwid.Columns([("weight", 2, inner), ("given", 2, urwid.SolidFill("|"))], box_columns=[0, 1])
+        raise AssertionError(k)
+    return G.build(spec, enc, rec)
+
+
+# ---------------------------------------------------------------------------------------------
 # the live tree
 
 
 def _is_leaf(w):
     return isinstance(w, (urwid.Text, urwid.Button, urwid.CheckBox, urwid.Divider, urwid.ProgressBar,
-                          urwid.SolidFill, urwid.BarGraph, urwid.BigText))
+                          urwid.SolidFill, urwid.BarGraph, urwid.BigText, Probe))
 
 
 def kids(w, mode):
@@ -269,10 +386,31 @@ def _text_spec(s, k=0):
     return {"cls": "Text", "markup": s, "bytes": False, "align": ALIGNS[k % 3], "wrap": "space"}
 
 
+def _probe_spec(kind, k, ser):
+    return {"cls": "Probe", "kind": kind, "cache": ["no_cache", "cached", "no_cache", "uncacheable"][k % 4], "tag": "p",
+            "value": ser, "rows": 1 + (k // 4 + ser) % 4, "sel": bool(k & 2) or kind == "flow" and bool(k & 1)}
+
+
 def new_spec(slot, k, ser):
+    """k < 40: widgets of vlib.gen_widgets; 40 <= k < 48: probes (uncached / cached / uncacheable canvas), an uncached
+    decoration, list boxes of several multi-row selectable cursor-less items"""
     t = f"n{ser}"
     if slot == "text":
         return _text_spec(t + "x" * (k % 4), k)
+    if k >= 40 and slot in ("flow", "box", "scroll"):
+        j = k - 40
+        long_button = {"cls": "Button", "label": f"{t} button with a label that wraps"}
+        items = [_probe_spec("flow", j + i, ser + i) if i % 2 == 0 else [long_button, _text_spec(f"{t} item {i}"), _probe_spec("flow", 5, ser)][i % 3]
+                 for i in range(3 + j % 4)]
+        lb = {"cls": "LB", "items": items, "focus": j, "walker": ["SimpleFocusListWalker", "SimpleListWalker"][j % 2]}
+        if slot == "scroll":
+            return lb
+        if slot == "flow":
+            return [_probe_spec("flow", j, ser), _probe_spec("flow", j, ser), long_button,
+                    {"cls": "NCDeco", "w": _text_spec(t)}, {"cls": "NCDeco", "w": _probe_spec("flow", j + 1, ser)},
+                    _probe_spec("flow", j, ser), long_button, _probe_spec("flow", j, ser)][j]
+        return [_probe_spec("box", j, ser), lb, lb, {"cls": "NCDeco", "w": lb}, {"cls": "FillerP", "w": _probe_spec("flow", j, ser)},
+                lb, _probe_spec("box", j, ser), lb][j]
     flow = [
         _text_spec(t),
         _text_spec(f"{t} more words\nline two", 1),
@@ -331,8 +469,9 @@ def _dim(t, n):
     return "pack" if t == PACK else (n if t == GIVEN else ("relative", n))
 
 
-def mutators(w, mode, ser, enc, build):
-    """build(slot, k) -> new widget for a slot of that sizing mode"""
+def mutators(w, mode, ser, enc, build, shown_size=None):
+    """build(slot, k) -> new widget for a slot of that sizing mode; shown_size: the size this node was handed by
+    its latest render() call in the always-fresh world (both twins are given the same one)"""
     M = []
 
     def add(name, fn):
@@ -393,6 +532,9 @@ def mutators(w, mode, ser, enc, build):
         add("set_font", lambda b, c: (w.set_font(getattr(urwid, FONTS[b % 3])()), FONTS[b % 3])[1])
     elif isinstance(w, (urwid.Divider, urwid.SolidFill)):
         pass
+    elif isinstance(w, Probe):
+        add("set_value", lambda b, c: (w.set_value(f"{ser}v{b}", 1 + c % 4), f"{ser}v{b}, rows={1 + c % 4}")[1])
+        add("set_value", lambda b, c: (w.set_value(f"{ser}w{b}"), f"{ser}w{b}")[1])
     elif isinstance(w, urwid.AttrWrap):
         add("set_attr", lambda b, c: (w.set_attr(T.ATTRS[b % 3]), T.ATTRS[b % 3])[1])
         add("set_focus_attr", lambda b, c: (w.set_focus_attr([None, *T.ATTRS][b % 4]), repr([None, *T.ATTRS][b % 4]))[1])
@@ -636,12 +778,71 @@ def mutators(w, mode, ser, enc, build):
             body[b % len(body)] = build("flow", c)
             return f"[{b % len(body)}] = flow #{c}"
 
+        # methods and input that need the size the ListBox is displayed with: the size of its latest render()
+        # (recorded by Run.instrument); not applicable before the first rendering
+        size = shown_size if shown_size is not None and min(shown_size) >= 1 else None
+
+        def focus_rows():
+            fw, _pos = body.get_focus()
+            return 0 if fw is None else fw.rows((size[0],), True)
+
+        def offset(c):
+            # any offset_inset the docstring allows: 0..maxrow-1 rows above the focus widget, or 1..rows-1 of its rows cut
+            fr = focus_rows()
+            choices = list(range(size[1])) + [-i for i in range(1, fr)]
+            return choices[c % len(choices)]
+
+        def change_focus(b, c):
+            if size is None or not len(body):
+                return None
+            _fw, pos = body.get_focus()
+            if b % 3 == 2:
+                pos = b % len(body)
+                w.change_focus(size, pos, 0, [None, "above", "below"][c % 3])
+                return f"{size}, {pos}, 0, {[None, 'above', 'below'][c % 3]!r}"
+            off = offset(c)
+            w.change_focus(size, pos, off)
+            return f"{size}, {pos} (the focus), {off}"
+
+        def shift_focus(b, c):
+            if size is None or not len(body):
+                return None
+            off = offset(c)
+            w.shift_focus(size, off)
+            return f"{size}, {off}"
+
+        def make_cursor_visible(b, c):
+            if size is None:
+                return None
+            w.make_cursor_visible(size)
+            return f"{size}"
+
+        def lb_key(b, c):
+            if size is None or not w.selectable():
+                return None
+            key = ["page up", "page down", "up", "down", "page down", "page up", "home", "end"][b % 8]
+            r = w.keypress(size, key)
+            return f"{size}, {key!r} -> {r!r}"
+
+        def lb_wheel(b, c):
+            if size is None:
+                return None
+            button = [4, 5][b % 2]
+            r = w.mouse_event(size, "mouse press", button, c % size[0], (c // 3) % size[1], True)
+            return f"{size}, wheel {button} -> {bool(r)}"
+
         add("set_focus", set_focus)
         add("set_focus_valign", valign)
         add("body.insert", insert)
         add("body.delete", delete)
         add("body[i]=", replace)
         add("focus_position=", lambda b, c: _set_focus_position(w, len(body), b))
+        add("change_focus", change_focus)
+        add("shift_focus", shift_focus)
+        add("make_cursor_visible", make_cursor_visible)
+        add("keypress", lb_key)
+        add("keypress", lb_key)
+        add("mouse_event", lb_wheel)
     else:
         raise AssertionError(f"no mutator table for {w!r}")
     return M
@@ -925,11 +1126,65 @@ class Run:
         self.rendered.add((si % len(self.sizes), focus))
 
     # -- the history ----------------------------------------------------------------------------
+    def instrument(self):
+        """record, on every ListBox of both trees, the size its latest render() call was given (instance attribute
+        around the bound method, as vlib.gen_widgets.build does; the cache wrapper below it is untouched)"""
+        for world in (self.A, self.B):
+            for w, _m, _d in live_nodes(world.root, self.mode):
+                if isinstance(w, urwid.ListBox) and "_c06_last_size" not in w.__dict__:
+                    w._c06_last_size = None
+
+                    def render(size, focus=False, _orig=w.render, _w=w):
+                        _w._c06_last_size = tuple(size)
+                        return _orig(size, focus)
+
+                    w.render = render
+
+    def plant(self):
+        """case["plant"]: [[n, k], ...] - before the first rendering node n (walk order, not the root) is replaced,
+        through its parent's public API, by new_spec(slot mode, k): how probes get into the initial tree"""
+        for j, (n, k) in enumerate(self.case.get("plant", [])):
+            ser = 900 + j
+            for world in (self.A, self.B):
+                nodes = live_nodes(world.root, self.mode)
+                i = n % len(nodes)
+                if i == 0:
+                    continue
+                target = nodes[i][0]
+                for pw, pm, _d in nodes:
+                    ks = kids(pw, pm)
+                    idx = next((x for x, (cw, _cm) in enumerate(ks) if cw is target), None)
+                    if idx is None:
+                        continue
+                    slot = ks[idx][1]
+                    if slot in ("text", "fixed") or isinstance(pw, G.Wrapped):
+                        break
+                    new = build_spec(new_spec(slot, k, ser), self.enc, world.rec)
+                    if isinstance(pw, (urwid.Pile, urwid.Columns, urwid.GridFlow)):
+                        pw.contents[idx] = (new, pw.contents[idx][1])
+                    elif isinstance(pw, urwid.ListBox):
+                        pw.body[idx] = new
+                    elif isinstance(pw, urwid.Frame):
+                        part = [p for p in ("header", "body", "footer") if getattr(pw, p) is not None][idx]
+                        setattr(pw, part, new)
+                    elif isinstance(pw, urwid.Overlay):
+                        pw.contents[1 - idx] = (new, pw.contents[1 - idx][1])
+                    else:
+                        pw.original_widget = new
+                    break
+
     def run(self):
         spec = self.case["spec"]
-        self.A.root = G.build(spec, self.enc, self.A.rec)
-        self.B.root = G.build(spec, self.enc, self.B.rec)
+        self.A.root = build_spec(spec, self.enc, self.A.rec)
+        self.B.root = build_spec(spec, self.enc, self.B.rec)
         try:
+            try:
+                self.plant()
+            except Exception as e:  # noqa: BLE001
+                if not innermost_is_urwid(e):
+                    raise
+                raise _Stop(type(e).__name__) from None
+            self.instrument()
             self.check_view("init")
             for ser, op in enumerate(self.case["ops"]):
                 kind = op[0]
@@ -1046,8 +1301,15 @@ class Run:
                 raise _Stop("twins-diverged")
             _count("op:mouse-handled" if ra else "op:mouse-unhandled")
             return True
-        if kind in ("mut", "again"):
+        if kind in ("mut", "again", "lb", "probe"):
             na, _nb = self.nodes_pair()
+            if kind in ("lb", "probe"):
+                # addressed to the j-th ListBox / the j-th probe leaf of the tree: ["lb" | "probe", j, a, b, c]
+                cls = urwid.ListBox if kind == "lb" else Probe
+                lbs = [i for i, (w, _m, _d) in enumerate(na) if isinstance(w, cls)]
+                if not lbs:
+                    return False
+                op = [op[0], lbs[op[1] % len(lbs)], *op[2:]]
             if kind == "again":
                 # the node mutated last time (same walk index), e.g. set_text(x) ... set_text(y) on one widget
                 if self.last_mut is None:
@@ -1059,9 +1321,11 @@ class Run:
             enc = self.enc
             info = {}
 
+            shown_size = getattr(live_nodes(self.B.root, self.mode)[n][0], "_c06_last_size", None)
+
             def go(world):
                 w, mode, _d = live_nodes(world.root, self.mode)[n]
-                M = mutators(w, mode, ser, enc, lambda slot, k: G.build(new_spec(slot, k, ser), enc, world.rec))
+                M = mutators(w, mode, ser, enc, lambda slot, k: build_spec(new_spec(slot, k, ser), enc, world.rec), shown_size)
                 if not M:
                     return None
                 name, fn = M[a % len(M)]
@@ -1082,6 +1346,7 @@ class Run:
                 self.trace.pop()
                 return False
             self.trace[-1] = f"{ser}:node {n} {ra}"
+            self.instrument()
             _count(f"mut:{info['name']}")
             if n != 0 and (si, focus) in self.rendered and not op[0].startswith("~"):
                 self.nt = True
@@ -1151,6 +1416,10 @@ _op = st.one_of(
     st.tuples(st.just("mut"), _n, _arg, _arg, _arg),
     st.tuples(st.just("again"), _arg, _arg, _arg),
     st.tuples(st.just("again"), _arg, _arg, _arg),
+    st.tuples(st.just("lb"), st.integers(0, 3), st.integers(6, 11), _arg, _arg),  # size-aware ListBox methods / keys / wheel
+    st.tuples(st.just("lb"), st.integers(0, 3), _arg, _arg, _arg),
+    st.tuples(st.just("probe"), st.integers(0, 5), _arg, _arg, _arg),
+    st.tuples(st.just("probe"), st.integers(0, 5), _arg, _arg, _arg),
     st.tuples(st.just("render"), _n, _si, st.booleans()),
     st.tuples(st.just("rows"), _n, _si, st.booleans()),
     st.tuples(st.just("drop")),
@@ -1166,6 +1435,9 @@ _pattern = st.one_of(
     st.tuples(_mut4, _vw, _ag3).map(lambda t: [["~mut", *t[0]], ["view", *t[1]], ["again", *t[2]]]),
     st.tuples(_vw, _vw, _mut4, _vw).map(lambda t: [["view", *t[0]], ["view", *t[1]], ["mut", *t[2]], ["view", *t[0]], ["view", *t[3]]]),
     st.tuples(_mut4, _ag3, _ag3).map(lambda t: [["mut", *t[0]], ["again", *t[1]], ["again", *t[2]]]),
+    # a ListBox scrolled twice in a row by size-aware methods / keys / wheel (mutators 6..11 of its table)
+    st.tuples(st.integers(0, 3), st.integers(6, 11), _arg, _arg, st.integers(6, 11), _arg, _arg).map(
+        lambda t: [["lb", t[0], t[1], t[2], t[3]], ["lb", t[0], t[4], t[5], t[6]]]),
 )
 
 
@@ -1179,15 +1451,35 @@ def _ops(max_ops):
 _wh = st.tuples(st.one_of(st.integers(1, 24), st.integers(4, 16)), st.one_of(st.integers(1, 10), st.integers(2, 6))).map(list)
 
 
+_probe = st.fixed_dictionaries({
+    "cls": st.just("Probe"), "kind": st.just("flow"), "cache": st.sampled_from(["cached", "cached", "no_cache", "uncacheable"]),
+    "tag": st.sampled_from(["p", "q"]), "value": st.integers(0, 9), "rows": st.integers(1, 4), "sel": st.booleans()})
+
+
+def _lb_root(enc):
+    """a ListBox of 2..8 items: gen_widgets flow leaves, multi-row probes (selectable or not, never a cursor, some
+    with uncached rendering), Buttons whose label wraps; bare or under an uncached decoration"""
+    item = st.one_of(G.flow_leaves(enc), _probe, _probe,
+                     st.fixed_dictionaries({"cls": st.just("Button"), "label": st.sampled_from(
+                         ["ok", "a button whose label wraps over rows", "press this button to confirm the operation"])}))
+    lb = st.fixed_dictionaries({"cls": st.just("LB"), "items": st.lists(item, min_size=2, max_size=8), "focus": st.integers(0, 7),
+                                "walker": st.sampled_from(["SimpleFocusListWalker", "SimpleListWalker"])})
+    inside = st.builds(lambda x, k, f: {"cls": "BoxIn", "kind": k, "footer": f, "w": x}, lb,
+                       st.sampled_from(["frame", "linebox", "attrmap", "pile", "columns"]), st.booleans())
+    return st.one_of(lb, lb, inside, inside, lb.map(lambda x: {"cls": "NCDeco", "w": x}))
+
+
 def _cases(max_depth, max_ops):
     def for_enc(enc):
         def for_mode(m):
+            tree = st.integers(1, max_depth).flatmap(lambda d: G.widget(m, d, enc))
             return st.fixed_dictionaries({
                 "enc": st.just(enc),
                 "mode": st.just(m),
-                "spec": st.integers(1, max_depth).flatmap(lambda d: G.widget(m, d, enc)),
+                "spec": st.one_of(tree, tree, tree, _lb_root(enc)) if m == "box" else tree,
                 "sizes": st.lists(_wh, min_size=2, max_size=3),
-                "hold": st.sampled_from(["all", "last", "last"]),
+                "hold": st.sampled_from(["all", "last"]),
+                "plant": st.lists(st.tuples(st.integers(1, 30), st.one_of(st.integers(40, 47), _arg)).map(list), max_size=2),
                 "ops": _ops(max_ops),
             })
 
@@ -1196,14 +1488,36 @@ def _cases(max_depth, max_ops):
     return st.sampled_from(["utf-8", "utf-8", "utf-8", "utf-8", "euc-jp", "iso8859-1"]).flatmap(for_enc)
 
 
+def _children(spec):
+    if spec["cls"] == "LB":
+        return list(spec["items"])
+    if spec["cls"] in ("NCDeco", "FillerP", "BoxIn"):
+        return [spec["w"]]
+    if spec["cls"] == "Probe":
+        return []
+    return G.children(spec)
+
+
+def _walk(spec):
+    yield spec
+    for ch in _children(spec):
+        yield from _walk(ch)
+
+
+def _depth(spec):
+    return 1 + max((_depth(ch) for ch in _children(spec)), default=0)
+
+
 def _classes(case):
-    out = [f"enc:{case['enc']}", f"hold:{case.get('hold', 'all')}", f"root-mode:{case['mode']}", f"root:{case['spec']['cls']}", f"depth:{G.depth(case['spec'])}"]
-    for s in G.walk(case["spec"]):
-        out.append(f"has:{s['cls']}")
+    out = [f"enc:{case['enc']}", f"hold:{case.get('hold', 'all')}", f"root-mode:{case['mode']}", f"root:{case['spec']['cls']}", f"depth:{_depth(case['spec'])}"]
+    for s in _walk(case["spec"]):
+        out.append(f"has:{s['cls']}" + (f":{s['cache']}" if s["cls"] == "Probe" else ""))
     for k in {o[0].lstrip('~') for o in case["ops"]}:
         out.append(f"has-op:{k}")
     if any(o[0].startswith("~") for o in case["ops"]):
         out.append("has-op:unrendered-step")
+    if case.get("plant"):
+        out.append("has:planted-widget")
     return sorted(set(out))
 
 
@@ -1336,7 +1650,38 @@ def _repair_scrollbar_nocache():
     return undo
 
 
+def _repair_store_checks_the_canvas_used():
+    """CanvasCache.store(): a canvas is cached only if every child canvas it was built from is itself the cached
+    canvas of its widget (not merely "that widget has some canvas in the cache")"""
+    cc = urwid.CanvasCache
+    orig = cc.__dict__["store"]
+
+    def used(canv):
+        out = []
+        for _x, _y, c, _pos in getattr(canv, "children", ()):
+            if c.widget_info:
+                out.append(c)
+            else:
+                out.extend(used(c))
+        return out
+
+    def store(cls, wcls, canvas):
+        if canvas.cacheable and getattr(canvas, "depends_on", None) is None:
+            for c in used(canvas):
+                if not any(ref() is c for ref in cls._widgets.get(c.widget_info[0], {}).values()):
+                    return None
+        return orig.__func__(cls, wcls, canvas)
+
+    cc.store = classmethod(store)
+
+    def undo():
+        cc.store = orig
+
+    return undo
+
+
 _REPAIRS = {
+    "C06-parent-cached-over-uncached-child-canvas": _repair_store_checks_the_canvas_used,
     "C06-edit-focus-shift-cached-at-text-level": _repair_edit_text_level,
     "C06-columns-hidden-pack-column-not-a-dependency": _repair_columns_hidden_pack,
     "C06-scrollable-render-moves-position": _repair_scrollable_adjust,
@@ -1390,6 +1735,13 @@ def _caused_by(fid, case):
 _DIFF = ("content-differs", "cursor-differs")
 
 KNOWN = {
+    # CanvasCache.store() caches a parent canvas when each child WIDGET has some canvas in the cache; the child canvas
+    # actually used may be an uncached one (it shows a no_cache / uncacheable descendant that the cached one, rendered
+    # at another size or scroll position, does not show): the parent is then invalidated by nothing below that child
+    "C06-parent-cached-over-uncached-child-canvas": lambda sub, case, v: sub == "hist"
+    and v.clause in _DIFF
+    and ("NCProbe.set_value" in v.message or "UCProbe.set_value" in v.message or "NCDeco" in v.message)
+    and _caused_by("C06-parent-cached-over-uncached-child-canvas", case),
     # (C06-listbox-valign-no-invalidate was fixed in /repo by 6fefaa1; replays/C06/fixed_listbox_valign_no_invalidate.json)
     # Edit.render() calls Text.render() through Text's cache wrapper, whose key ignores focus (Text.ignore_focus);
     # the Edit's layout does depend on focus (view shifted to the cursor), so the Text-level entry written by a
